@@ -263,7 +263,18 @@ impl Manifest {
                 LOCK_OBTAINED.click();
                 let manifest = MANIFEST(&root);
                 let (strs, info) = Self::read_mani(&manifest)?;
-                let last_rollover = Self::next_manifest_identifier(&root)?;
+                let mut last_rollover = Self::next_manifest_identifier(&root)?;
+                // NOTE:  A rollover that died between hard_link and rename leaves the newest
+                // backup as a second name for MANIFEST.  Rolling over again would create another
+                // copy of the same fragment and the two would not chain.  Drop the stale link so
+                // that the rollover below recreates it.
+                if last_rollover > 1 {
+                    let newest = BACKUP(&root, last_rollover - 1);
+                    if Self::same_file(&newest, &manifest) {
+                        remove_file(&newest)?;
+                        last_rollover -= 1;
+                    }
+                }
                 let mut this = Self {
                     options,
                     _lockfile,
@@ -491,6 +502,14 @@ impl Manifest {
             Some(Ok(edit)) => Ok(Some(edit)),
             Some(Err(err)) => Err(err),
             None => Ok(None),
+        }
+    }
+
+    fn same_file(lhs: &Path, rhs: &Path) -> bool {
+        use std::os::unix::fs::MetadataExt;
+        match (metadata(lhs), metadata(rhs)) {
+            (Ok(lhs), Ok(rhs)) => lhs.dev() == rhs.dev() && lhs.ino() == rhs.ino(),
+            _ => false,
         }
     }
 
